@@ -223,8 +223,8 @@ impl Sem for DecSem {
             "Sqrt" => { let x = self.f(&args[0])?; if x < 0.0 { return Err(Stop::Unspec("FunctionOutsideDomain")); } self.approx(x.sqrt()) }
             "Ln" => { let x = self.f(&args[0])?; if x <= 0.0 { return Err(Stop::Unspec("FunctionOutsideDomain")); } self.approx(x.ln()) }
             "Lb" => { let x = self.f(&args[0])?; if x <= 0.0 { return Err(Stop::Unspec("FunctionOutsideDomain")); } self.approx(x.log2()) }
-            "Exp" => { let x = self.f(&args[0])?; self.approx(x.exp()) }
-            "Exp2" => { let x = self.f(&args[0])?; self.approx(x.exp2()) }
+            "Exp" => { let x = self.f(&args[0])?; if x < -60.0 { return Err(Stop::Unspec("ApproximateValueBelowResolution")); } self.approx(x.exp()) }
+            "Exp2" => { let x = self.f(&args[0])?; if x < -90.0 { return Err(Stop::Unspec("ApproximateValueBelowResolution")); } self.approx(x.exp2()) }
             "Log" => { let (x, b) = (self.f(&args[0])?, self.f(&args[1])?);
                        if x <= 0.0 || b <= 0.0 || b == 1.0 { return Err(Stop::Unspec("FunctionOutsideDomain")); } self.approx(x.ln() / b.ln()) }
             "Root" => { let (n, x) = (self.f(&args[0])?, self.f(&args[1])?);
